@@ -250,6 +250,15 @@ pub fn eval_leaf(l: &Leaf, s: &Store) -> T3 {
             if matches!(lv, V::Null) || matches!(rv, V::Null) {
                 return T3::False;
             }
+            // two integers are ordered as integers, whatever their size
+            if let (V::Int(x), V::Int(y)) = (&lv, &rv) {
+                return T3::from_bool(match l.op {
+                    Op::Lt => x < y,
+                    Op::Le => x <= y,
+                    Op::Gt => x > y,
+                    _ => x >= y,
+                });
+            }
             match (num_of(&lv), num_of(&rv)) {
                 (Some(x), Some(y)) => {
                     if !exact(&lv) || !exact(&rv) {
